@@ -64,10 +64,20 @@ def label(rng, used=(), real=0.6, maxlen=6):
   raise RuntimeError("label")
 
 
-def species_list(rng, n, real=0.6, maxlen=6):
+def species_list(rng, n, real=0.6, maxlen=6, lookalike=False):
   out = []
   for _ in range(n):
     out.append(label(rng, out, real, maxlen))
+  if lookalike and n >= 2 and rng.random() < 0.25:
+    # look-alike labels: one label is a prefix of another (Ce / Ce+, O / O2, Fe / Fe_s) or they differ only in case;
+    # the extra characters sort before and after '-' and '>' so that orderings of 'A-B' strings and of species differ
+    i, j = rng.sample(range(n), 2)
+    base = out[i]
+    for _ in range(20):
+      cand = base + rng.choice(["+", "2", "_", "x", "+2", "0"]) if rng.random() < 0.8 else (base.lower() if base.lower() != base else base.upper())
+      if len(cand) <= maxlen and cand not in out:
+        out[j] = cand
+        break
   return out
 
 
@@ -561,7 +571,7 @@ def gen_pair_model(rng, route="potable", npots=None, reg0=False, depth=2, target
   """Pair model: species pairs (unique unordered), forms, tables, grid."""
   npots = npots or rng.choice([1, 1, 2, 2, 3, 4, 6])
   nsp = rng.choice([1, 2, 3, 4])
-  sp = species_list(rng, nsp, maxlen=maxlabel)
+  sp = species_list(rng, nsp, maxlen=maxlabel, lookalike=True)
   if route == "api" and rng.random() < 0.25:
     # through the Python API a label is any string without white space: charges, dots, even hyphens
     sp = [x + rng.choice(["2-", "+3", ".1", "-", "_core", "4+"])[:max(0, maxlabel - len(x))] for x in sp]
@@ -612,7 +622,7 @@ def gen_eam_model(rng, kind="eam", route="potable", nspecies=None, target=None, 
   density: [[A, node]] (eam, adp) or [[A, B, node]] (fs: density at an A site from a B neighbour);
   pair / dipole / quadrupole: any subset of unordered pairs in either species order."""
   n = nspecies or rng.choice([1, 2, 2, 3, 3, 4])
-  sp = species_list(rng, n, real=0.7, maxlen=5)
+  sp = species_list(rng, n, real=0.7, maxlen=5, lookalike=True)
   # no label may contain '-' or '>' (they are key syntax); our alphabet has neither
   tables, forms = [], []
   if with_forms and rng.random() < 0.4:
